@@ -71,7 +71,7 @@ def ideal_generators(pc, syms):
     return gens
 
 
-def prove(pc, goal, timeout_s=60):
+def prove(pc, goal, timeout_s=60, hyps=None):
     """-> ('proved'|'unknown'|'refuted-candidate', info)"""
     t0 = time.time()
     syms = {}
@@ -83,7 +83,7 @@ def prove(pc, goal, timeout_s=60):
             if not (z3.is_eq(c) and c.arg(0).sort() == z3.RealSort()):
                 return "unknown", "goal is not a conjunction of real equalities"
             eqs.append(to_sympy(c.arg(0), syms) - to_sympy(c.arg(1), syms))
-        gens = ideal_generators(pc, syms)
+        gens = ideal_generators(pc if hyps is None else hyps, syms)
     except NotPolynomial as e:
         return "unknown", str(e)
     allsyms = sorted({s for g in gens for s in g.free_symbols} | {s for e in eqs for s in e.free_symbols}, key=lambda s: s.name)
